@@ -100,11 +100,16 @@ def run_check(pid, tier, replay=None):
         runs, cases, states, trans = [], [], 0, 0
         rng = random.Random(seed)
         if quick:
-            # all leaf / skipped / nested kinds, two seeded inner shapes; one case in six is replayed
+            # all leaf / skipped / nested kinds, two seeded inner shapes; one case in 48 of the two-field universe is replayed (every single-field case is)
             inner = "{ %s }" % ", ".join(rng.sample(INNER_LIST[:-1], 2) + INNER_LIST[-1:])
-            plan = [(2, 2, 6, inner), (1, 3, 1, None)]
+            plan = [(2, 2, 48, inner), (1, 3, 1, None)]
         else:
-            plan = [(2, 2, 8, None), (3, 1, 300, None), (1, 3, 1, None)]   # (sampling raised with the number of leaf kinds: 14 kinds, explicit zero values)
+            # measured: (2,2) over every inner shape is 25.7M states / 250 s; (3,1) over every inner shape does not finish
+            # (three-field inner shapes cube the value space: > 24 GB of states after 16 min), so the three-field universe
+            # takes three seeded inner shapes of at most two fields (16-40M states); sampling keeps the replay near 2M cases
+            small = [x for x in INNER_LIST if x.count("[k |->") <= 2]
+            inner3 = "{ %s }" % ", ".join(rng.sample(small, 3))
+            plan = [(2, 2, 16, None), (3, 1, 60, inner3), (1, 3, 1, None)]
         for i, (mf, ml, sample, inner) in enumerate(plan):
             d = scratch.sub("st%d" % i)
             write_model(d, mf, ml, sample, inner=inner)
